@@ -45,10 +45,20 @@ Inductive xerr :=
 | DupOriginal (name_of_elem : str) (name : str) (first second : pos)
 | NoOriginal (name_of_elem : str) (first_extension : pos).
 
-(** impl From<ExtensionError> for PositionedError: the primary position of the diagnostic
-    (DuplicateOriginal additionally attaches [second] as "Another declaration of ..") *)
+(** impl From<ExtensionError> for PositionedError: the primary position of the diagnostic, the
+    additional positions with their texts, and the #[error("…")] message of ExtensionErrorMessage *)
 Definition diag_pos (e : xerr) : pos :=
   match e with DupOriginal _ _ first _ => first | NoOriginal _ p => p end.
+Definition additional_info (e : xerr) : list (pos * str) :=
+  match e with
+  | DupOriginal _ name _ second => [(second, s "Another declaration of '" ++ name ++ s "'")]
+  | NoOriginal _ _ => []
+  end.
+Definition error_message (e : xerr) : str :=
+  match e with
+  | DupOriginal elem name _ _ => s "Duplicated declaration of " ++ elem ++ s " '" ++ name ++ s "'"
+  | NoOriginal elem _ => elem ++ s " is extended, but there is no original declaration of " ++ elem
+  end.
 
 (** the strings given to ExtensionList::new in resolve_schema_extensions *)
 Definition name_of_elem (k : kind) : str :=
